@@ -52,3 +52,22 @@ Definition holds_xapp (g : geom) (len : Z) (a b : outcome Z * dump) : bool :=
   | _ => false
   end &&
   words_eqb (d_part (snd a) ((act + 1) mod 3)) [] && words_eqb (d_part (snd a) ((act + 2) mod 3)) [].
+
+(* The shared TermAppender called directly, vectored against contiguous, on twin logs, with an active term id that is the
+   tail's term id + delta.  Same result, same term count, same tail counters, same words written; and when the caller's
+   term id is not the one its fetch-add landed in (delta <> 0) both flavours refuse (IllegalState = ActionPossiblyDelayed)
+   and write no word of any partition (the tail counter has moved: that is the known C02 finding, not C18's matter). *)
+Definition sapp_res_eqb (a b : outcome Z) : bool :=
+  match a, b with
+  | Err IllegalState, Err IllegalState => true
+  | _, _ => res_eqb a b
+  end.
+Definition holds_sapp (g : geom) (delta len : Z) (a b : outcome Z * dump) : bool :=
+  sapp_res_eqb (fst a) (fst b) && dump_same (snd a) (snd b) &&
+  (if delta =? 0 then
+     match fst a with Ok _ => true | _ => false end
+   else
+     match fst a with
+     | Err IllegalState => forallb (fun ws => words_eqb ws []) (snd (snd a))
+     | _ => false
+     end).
